@@ -522,6 +522,8 @@ class CE:
             if isinstance(o, (Mat, RowView)):
                 return o.get(idx)
             if isinstance(o, ExtName):
+                if o.dotted.split(".")[-1] == "Literal":
+                    return ("literal", tuple(idx) if isinstance(idx, tuple) else (idx,))
                 return o
             try:
                 return o[idx]
@@ -610,7 +612,7 @@ class CE:
         if r[0] == "class":
             return r[1]
         if r[0] == "module":
-            return r[1]
+            return r[1] if r[1] is not None else ExtName(name)
         if r[0] == "external":
             return ExtName(r[1])
         if r[0] == "builtin":
@@ -658,6 +660,8 @@ class CE:
             if attr == "num_qubits":
                 return o.width
             return ("recmethod", o, attr)
+        if isinstance(o, tuple) and o and o[0] == "respath":
+            return ("respath-method", o, attr)
         if isinstance(o, (str, list, dict, tuple, int, set)):
             return ("pymethod", o, attr)
         raise Unsupported(f"attribute {attr} of {type(o).__name__} at {pyfacts.where(f, e)}")
@@ -708,6 +712,17 @@ class CE:
                 rec.log.append((name,) + tuple(tuple(x) if isinstance(x, list) else x for x in flat))
                 return None
             raise Unsupported(f"circuit method {name} in evaluated fragment at {pyfacts.where(f, e)}")
+        if isinstance(fn, tuple) and fn and fn[0] == "respath-method":
+            _, rp, name = fn
+            if name in ("joinpath", "__truediv__"):
+                return ("respath", rp[1] + "/" + str(args[0]))
+            if name in ("is_file", "exists"):
+                return self.prog.tree.exists(rp[1])
+            if name == "read_text":
+                if not self.prog.tree.exists(rp[1]):
+                    raise CERaise("FileNotFoundError", rp[1])
+                return self.prog.tree.read(rp[1])
+            raise Unsupported(f"resource path method {name}")
         if isinstance(fn, tuple) and fn and fn[0] == "pymethod":
             o, name = fn[1], fn[2]
             allowed = {str: {"split", "replace", "startswith", "endswith", "lstrip", "rstrip", "strip", "join", "format", "count", "index", "find", "lower", "upper", "zfill"},
@@ -780,6 +795,24 @@ class CE:
             return list(itertools.combinations(list(self.iterate(args[0])), args[1]))
         if dotted.startswith("numpy."):
             return self.call_numpy(name, args, kwargs, e, f)
+        if name == "get_args" and args and isinstance(args[0], tuple) and args[0] and args[0][0] == "literal":
+            return args[0][1]
+        if dotted.endswith("resources.files") or dotted.endswith("resources.is_resource") or dotted.endswith("resources.read_text"):
+            # package-data queries are answered from the source tree (data package = src/htstabilizer/data)
+            pkg = args[0]
+            base = "src/htstabilizer/" + pkg.name if isinstance(pkg, pyfacts.Module) else None
+            if base is None and isinstance(pkg, ExtName):
+                base = "src/htstabilizer/" + pkg.dotted.split(".")[-1]
+            if base is None:
+                raise Unsupported(f"resource query on {pkg!r}")
+            if dotted.endswith("files"):
+                return ("respath", base)
+            rel = base + "/" + args[1]
+            if dotted.endswith("is_resource"):
+                return self.prog.tree.exists(rel)
+            if not self.prog.tree.exists(rel):
+                raise CERaise("FileNotFoundError", rel)
+            return self.prog.tree.read(rel)
         if name == "QuantumCircuit":
             return Recorder(args[0] if args else None)
         if dotted in ("copy.deepcopy", "copy.copy"):
